@@ -22,6 +22,8 @@ pub struct RunOut {
     pub timed_out: bool,
     /// when timed out: process consumed no CPU over the sampling window and all threads sleeping
     pub deadlocked: bool,
+    /// the CPU-time limit was exceeded (busy hang); implies timed_out
+    pub cpu_exceeded: bool,
 }
 
 impl RunOut {
@@ -46,11 +48,13 @@ pub struct RunSpec<'a> {
     pub timeout: Duration,
     /// send this signal after this delay
     pub signal_after: Option<(Duration, i32)>,
+    /// CPU time (all threads) after which the run counts as a busy hang; load-independent, unlike the wall clock
+    pub cpu_limit: Option<Duration>,
 }
 
 impl<'a> Default for RunSpec<'a> {
     fn default() -> Self {
-        RunSpec { args: vec![], stdin: None, env: vec![], cwd: None, tmpdir: None, timeout: Duration::from_secs(60), signal_after: None }
+        RunSpec { args: vec![], stdin: None, env: vec![], cwd: None, tmpdir: None, timeout: Duration::from_secs(60), signal_after: None, cpu_limit: None }
     }
 }
 
@@ -129,6 +133,8 @@ pub fn run_bin(bin: &Path, spec: RunSpec) -> RunOut {
     let mut timed_out = false;
     let mut deadlocked = false;
     let mut signalled = false;
+    let mut cpu_exceeded = false;
+    let mut next_cpu_check_ms = 1000u64;
     let status;
     let mut sleep_us = 200u64;
     loop {
@@ -147,6 +153,21 @@ pub fn run_bin(bin: &Path, spec: RunSpec) -> RunOut {
                     libc::kill(pid as i32, sig);
                 }
                 signalled = true;
+            }
+        }
+        if let Some(lim) = spec.cpu_limit {
+            if el.as_millis() as u64 >= next_cpu_check_ms {
+                next_cpu_check_ms = el.as_millis() as u64 + 500;
+                if let Some((ticks, _)) = cpu_ticks(pid) {
+                    // USER_HZ is 100 on Linux
+                    if ticks * 10 > lim.as_millis() as u64 {
+                        timed_out = true;
+                        cpu_exceeded = true;
+                        let _ = child.kill();
+                        status = child.wait().unwrap();
+                        break;
+                    }
+                }
             }
         }
         if el > spec.timeout {
@@ -180,7 +201,7 @@ pub fn run_bin(bin: &Path, spec: RunSpec) -> RunOut {
     let stdout = th_o.join().unwrap_or_default();
     let stderr = th_e.join().unwrap_or_default();
     use std::os::unix::process::ExitStatusExt;
-    RunOut { status: status.code(), signal: status.signal(), stdout, stderr, wall, timed_out, deadlocked }
+    RunOut { status: status.code(), signal: status.signal(), stdout, stderr, wall, timed_out, deadlocked, cpu_exceeded }
 }
 
 /// A private scratch directory removed on drop.
